@@ -572,19 +572,22 @@ Definition mpdDiff (oldRoot newRoot : elem) : res patchdoc :=
     do ops <- elem_ops (S (depth oldRoot)) oldRoot newRoot rootPath;
     Ok (mkPatch oldId (getAttrValue oldRoot "publishTime") (getAttrValue newRoot "publishTime") ops expiration).
 
-(** patchHandlerFunc: HTTP status from the outcome of MPDDiff (a panic is turned into 500 by the
-    Recoverer middleware of the router) *)
-Definition handler_status (r : res patchdoc) : Z :=
-  match r with
-  | Ok _ => 200
+(** patchHandlerFunc: HTTP status from the outcome of MPDDiff.  errors.Is compares with the two
+    sentinel error values, which only checkPatchConditions returns (every other error is a fresh
+    fmt.Errorf value); a panic is turned into 500 by the Recoverer middleware of the router. *)
+Definition mpdDiff_status (oldRoot newRoot : elem) : Z :=
+  match checkPatchConditions oldRoot newRoot with
   | Err e => if seqb e errSamePublishTime then 425 else if seqb e errTooLate then 410 else 500
   | Panic _ => 500
+  | Ok _ => match mpdDiff oldRoot newRoot with Ok _ => 200 | _ => 500 end
   end.
 
 (** The handler regenerates the old MPD at publishTime + 1 ms and the new one at now. [mpd_at]
     is the MPD generator (abstract here), times in ms; [pt_ms] the parsed publishTime query. *)
 Definition patch_handler (mpd_at : Z -> elem) (pt_ms now_ms : Z) : res patchdoc :=
   mpdDiff (mpd_at (pt_ms + 1)) (mpd_at now_ms).
+Definition patch_handler_status (mpd_at : Z -> elem) (pt_ms now_ms : Z) : Z :=
+  mpdDiff_status (mpd_at (pt_ms + 1)) (mpd_at now_ms).
 
 (* ------------------------------------------------------------------------------------------ *)
 (** * The independent applier: XML patch operations on a tree (RFC 5261 as used by DASH) *)
